@@ -84,6 +84,7 @@ NEAR_MISS = [
     "forward fn a(i: int)->int;\nforward fn b(i: int)->int;\nfn c(i: int)->int{ a(i) }\nfn a(i: int)->int{ b(i) }\nlet x = c(1);\nfn b(i: int)->int{ i }",
     "forward fn pick(x: int)->int;\nforward fn pick(x: str)->int;\nfn use_int()->int{ pick(1) }\nfn pick(x: str)->int{ x.len() }\nlet r = use_int();\nfn pick(x: int)->int{ x }",
     "let k = (i: int)->{ i % 3 };\nlet eq_ = k.to_eq();\nlet r = eq_(3, 6);",
+    "let k = (i: int)->{ i % 3 };\nlet cmp_ = k.to_cmp();\nlet r = cmp_("a", "b");",
     "struct P(x: int)\nfn mk()->P{ P(7) }\nfn host()->str{ struct P(x: str)  let xs = [P('a'), mk()]; xs[1]::x }\nlet w = host();",
     "struct P(x: int)\nfn mk()->P{ P(7) }\nfn host()->str{ struct P(x: str)  fn first(p: P)->str{ p::x }  first(mk()) }\nlet w = host();",
     "let x = add{int, $}(1);", "let x = add{$, $, $}(1, 2);", "fn foo(x: Sequence<int>)->int{ x.len() }\nlet a = foo{Sequence<$>}([1, 2]);",
@@ -185,8 +186,8 @@ def run(ctx):
                 continue
             if k in ("died", "timeout"):
                 lim = limits_pool[li] or {}
-                if not all(x in lim for x in ("size", "search", "ud_call")):
-                    continue        # running out of memory / time without the corresponding limit is the host's responsibility (C10 covers the limited case)
+                if not all(x in lim for x in ("size", "search", "ud_call", "recursion")):
+                    continue        # running out of memory / time without the corresponding limit is the host's responsibility (a tail loop needs the recursion limit; C10 covers the limited case)
                 ctx.verdicts.violation(f"{k}|{it['op'][:70]}", solo, {"expr": it["expr"], "expected": "value, error or violation", "observed": out.get("detail")})
     # ---- (b) near misses, (c) generated core programs and corpus mutants, all executed completely
     progs = [(s, "near_miss") for s in NEAR_MISS]
@@ -219,8 +220,8 @@ def run(ctx):
         if o.get("timeout") or o.get("died") or o.get("harness_error"):
             if o.get("harness_error") or not o.get("confirmed"):
                 ctx.verdicts.inconclusive_case("worker problem", c)
-            elif not all(x in c.get("limits", {}) for x in ("size", "search", "ud_call")):
-                pass                # without the full set of limits resource exhaustion is the host's responsibility
+            elif not all(x in c.get("limits", {}) for x in ("size", "search", "ud_call", "recursion")):
+                pass                # without the full set of limits resource exhaustion is the host's responsibility (a tail-recursive loop is bounded by the recursion limit only)
             elif o.get("died"):
                 ctx.verdicts.violation(f"died|{fam}", c, {"expected": "value, error or violation", "observed": {k: o.get(k) for k in ("rc", "stderr")}})
             else:
@@ -245,6 +246,8 @@ def run(ctx):
                 continue
             if "ran out of scope parents" in sig and re.search(r"\bforward\s+fn\b", c["source"]):
                 sig += "|program_declares_forward_fn"
+            if "error when converting primitive" in sig and re.search(r"\bto_(cmp|eq|lt)\(", c["source"]):
+                sig += "|program_calls_the_result_of_to_cmp_to_eq_or_to_lt"
             ctx.verdicts.violation(f"panic|{fam}|{where.split(':')[0]}|{sig}", c, {"expected": "value, error or violation", "observed": {"where": where, "panic": p}})
         for name, b in (o.get("bindings") or {}).items():
             if b.get("dump") is not None:
